@@ -367,6 +367,10 @@ func Reaches(to ssa.Value, pred func(ssa.Value) bool) bool {
 				if fv, ok := x.X.(*ssa.FreeVar); ok {
 					return walk(fv, d+1)
 				}
+				// a package-level variable: the predicate sees the global itself
+				if g, ok := x.X.(*ssa.Global); ok {
+					return walk(g, d+1)
+				}
 			}
 			if x.Op == token.SUB || x.Op == token.NOT || x.Op == token.XOR {
 				return walk(x.X, d+1)
